@@ -516,7 +516,7 @@ def run_revectorize_case(case, ctx):
 
 
 def run_fortran_case(case, ctx):
-    """1-2 other scalar models are compiled for the Fortran backend, then the probe model - all under the same file name (the
+    """1-3 other scalar models are compiled for the Fortran backend, then the probe model - all under the same file name (the
     default one, or an explicit one), with clear on/off; the probe's function must compute the probe model (reference RHS)."""
     import mpmath
     mpmath.mp.dps = 40
@@ -527,7 +527,7 @@ def run_fortran_case(case, ctx):
         return gen.gen_net(rnd, pool=gen.SAFE_POOL, n_nodes=rnd.choice([1, 2]), max_types=2, depth=0, forbid=ctx['excluded'],
                            edge_density=0.3, unique_types=True)[0]
     M = small()
-    others = [small() for _ in range(rnd.randint(1, 2))]
+    others = [small() for _ in range(case.get('n_others') or rnd.choice([1, 2, 2, 3]))]
     fname = rnd.choice([None, None, 'shared_mod'])
     # (earlier builds may use the other float precision: the helper functions of a build - sigmoid, sign, interp - carry it)
     hist = [{'clear': rnd.random() < 0.5, 'prec': rnd.choice(['float64', 'float32', 'float32'])} for _ in others]
